@@ -281,6 +281,11 @@ def gen_score(rng, spines=None, measures=None, allow_splits=True, kern_only=Fals
                 target = rng.choice(kcols)
                 ops_row({target: '*^'})
                 group = (target, 2)
+                if mid_signatures and rng.random() < 0.35:
+                    # a clef written right after the split, in one of the two sub-spines only (the other one keeps the clef in force)
+                    which = target + rng.choice([0, 1])
+                    clef = rng.choice(KERN_INTERPS[0])
+                    simple_row('interp', lambda sid, col: Cell('interp', clef, sid, col) if col == which else Cell('nullinterp', '*', sid, col))
             elif allow_splits and group is not None and group[1] == 2 and nested and rng.random() < 0.35:
                 t = group[0] + rng.choice([0, 1])                         # split the left or the right sub-spine again
                 ops_row({t: '*^'})
